@@ -113,6 +113,24 @@ func smallList(t string, budget int, frag string) []smallSel {
 			out = append(out, smallSel{a.text + " " + b.text, a.cost + b.cost})
 		}
 	}
+	// three selections: leaves only (three fields of one response name are compared pair by pair)
+	if budget >= 3 {
+		var leaves []smallSel
+		for _, a := range ones {
+			if a.cost == 1 && !strings.Contains(a.text, "{") {
+				leaves = append(leaves, a)
+			}
+		}
+		for i, a := range leaves {
+			for j, b := range leaves {
+				for k, c := range leaves {
+					if i <= j && j <= k && (strings.HasPrefix(a.text, "x:") || strings.HasPrefix(b.text, "x:") || strings.HasPrefix(c.text, "x:") || strings.HasPrefix(a.text, "f")) {
+						out = append(out, smallSel{a.text + " " + b.text + " " + c.text, 3})
+					}
+				}
+			}
+		}
+	}
 	return out
 }
 
